@@ -55,7 +55,7 @@ fn gen_program(rng: &mut Rng) -> Program {
     let fail = rng.chance(350);
     Program {
         fail_at: if fail { Some(rng.below(k + 1)) } else { None },
-        fail_kind: *rng.pick(&["error-make", "error-make", "missing-column", "meta-not-a-record"]),
+        fail_kind: *rng.pick(&["error-make", "error-make", "missing-column", "meta-not-a-record", "meta-null-at-run-time"]),
         appends,
         ret: *rng.pick(&["nothing", "string", "int", "float", "bool", "list", "record", "empty-string", "empty-list", "empty-record", "zero", "false", "frame-of-another-handler", "frame-like-record"]),
         suffix: *rng.pick(&[None, None, Some(".res"), Some(".done.x")]),
@@ -69,6 +69,8 @@ fn script(p: &Program, own: &str, other: &str) -> String {
     let fail_stmt = match p.fail_kind {
         "error-make" => "    error make {msg: \"boom-on-purpose\"}\n".to_string(),
         "missing-column" => "    let x = $frame.meta.does_not_exist.deeper\n".to_string(),
+        // (a value that is null only at run time, e.g. the forwarded meta of a trigger that has none)
+        "meta-null-at-run-time" => "    \"x\" | .append out.bad --meta $frame.meta?.absent?\n".to_string(),
         _ => "    \"x\" | .append out.bad --meta $frame.topic\n".to_string(),
     };
     for (i, a) in p.appends.iter().enumerate() {
